@@ -2,6 +2,7 @@
 deterministic interpretation with the crate's nuts::draw on scripted orbits (harness `orbit`)."""
 import json
 import math
+import random
 import struct
 from fractions import Fraction
 
@@ -78,6 +79,60 @@ def gen_cases(ctx, n, faults=False):
         if faults and r.random() < 0.7:
             k = r.randint(1, 40)
             c["faults"] = [[k, r.choice(["rec", "nan_logp", "inf_logp", "neginf_logp", "nan_grad", "inf_grad", "huge_energy", "unrec"])]]
+        cases.append(c)
+    # mirror rebuilds (oracle_mirror): decided by a separate stream so that the cases above do not
+    # depend on it
+    rm = random.Random("%d-mirror" % ctx.seed)
+    for c in cases:
+        if mirror_eligible(c) and rm.random() < 0.8:
+            c["mirror"] = True
+    return cases
+
+
+def mirror_eligible(c):
+    """the situation C01 speaks about: default tree options, no scripted density fault"""
+    return (not c.get("faults") and c.get("extra_doublings", 0) == 0 and c.get("check_turning", True)
+            and c.get("target_integration_time") is None and c.get("mindepth", 0) == 0
+            and c["kind"] in ("euclidean", "exact_normal") and c["dim"] >= 1)
+
+
+def gen_mirror_cases(ctx, n, first_id):
+    """Cases made for the mirror rebuild: many trajectories per case (one scripted momentum per
+    draw), generic (non-dyadic) numbers, step sizes and depth limits that give trees of depth 2-7
+    which end by a U-turn, by a rejected doubling and by the depth limit.  Only the first two draws
+    of such a case go through the model correspondence; all of them are judged by oracle_mirror."""
+    r = random.Random("%d-mirror-cases" % ctx.seed)
+    cases = []
+    for k in range(n):
+        dim = r.choice([1, 2, 2, 3, 3, 4, 6])
+        nd = 10
+        c = {"id": first_id + k, "dim": dim, "kind": r.choice(["euclidean", "euclidean", "exact_normal"]),
+             "prec": [r.choice([0.1, 0.25, 0.5, 1.0, 2.0, 4.0, 9.0, 11.0]) for _ in range(dim)],
+             "mu": [round(r.uniform(-1, 1), 3) for _ in range(dim)],
+             "stds": [r.choice([0.5, 1.0, 2.0, 1.5, 0.3, 3.0]) for _ in range(dim)],
+             "mean": [round(r.uniform(-1, 1), 3) for _ in range(dim)],
+             "init": [r.gauss(0, 1.5) for _ in range(dim)],
+             "momentum": [r.gauss(0, 1) for _ in range(dim)],
+             "momenta": [[r.gauss(0, 1) for _ in range(dim)] for _ in range(nd)],
+             "step_size": r.choice([0.03, 0.06, 0.1, 0.15, 0.2, 0.3, 0.4, 0.5, 0.7, 1.0]),
+             "maxdepth": r.choice([2, 3, 3, 4, 4, 5, 6, 7, 8]),
+             "seed": r.randint(0, 2 ** 32),
+             "words": [str(r.getrandbits(64)) for _ in range(400)],
+             "ndraws": nd, "mirror": True, "tie_draws": 2}
+        if r.random() < 0.4:
+            c["quartic"] = r.choice([0.05, 0.25, 1.0])
+        if r.random() < 0.3 and dim >= 2:
+            rank = r.randint(1, dim)
+            cols = r.sample(range(dim), rank)
+            vecs = []
+            for j in cols:
+                v = [0.0] * dim
+                v[j] = r.choice([1.0, -1.0])
+                vecs.append(v)
+            c["lowrank"] = {"vals": [r.choice([0.25, 4.0, 9.0, 0.0625]) for _ in range(rank)], "vecs": vecs,
+                            "mu": [round(r.uniform(-1, 1), 3) for _ in range(dim)]}
+        if r.random() < 0.15:
+            c["max_energy_error"] = r.choice([0.5, 2.0, 20.0])
         cases.append(c)
     return cases
 
@@ -202,7 +257,11 @@ def ambiguous(m, d=None):
     for p in m[2]:
         if p < 1000 or p > 10 ** 12 - 1000:
             return True
-    if d is not None and d.get("init") and d.get("leapfrogs"):
+    return d is not None and energy_tie(d)
+
+
+def energy_tie(d):
+    if d.get("init") and d.get("leapfrogs"):
         es = [bits2f(d["init"]["energy"])] + [bits2f(lf["energy"]) for lf in d["leapfrogs"] if not lf["diverged"]]
         es = [e for e in es if e == e and abs(e) != float("inf")]
         if len(es) >= 3:
@@ -283,6 +342,141 @@ def oracle_c03(c, o):
             # stopped at maxdepth without the flag: a U-turn of the whole tree at the last level
             pass
     return bad
+
+
+def turning_terms(S, a, b):
+    """the two scalar products `is_turning` tests for the states with indices a < b
+    (TransformedHamiltonian::is_turning: (q_b - q_a).v_a and (q_b - q_a).v_b; turning iff one of them
+    is < 0), each with the magnitudes its rounding / reproduction error scales with:
+    (value, sum (|q_a|+|q_b|)|v|, sum |v|, sum |q_b - q_a|)"""
+    (qa, va), (qb, vb) = S[a], S[b]
+    dq = [y - x for x, y in zip(qa, qb)]
+    l1 = sum(abs(x) for x in dq)
+    res = []
+    for v in (va, vb):
+        res.append((sum(x * y for x, y in zip(dq, v)),
+                    sum((abs(x) + abs(y)) * abs(w) for x, y, w in zip(qa, qb, v)),
+                    sum(abs(w) for w in v), l1))
+    return res
+
+
+def mirror_blocks(S, lo, depth):
+    """every U-turn test the tree builder can make inside the aligned blocks of [lo, lo + 2^depth):
+    for a block of size 2^j >= 2 the test of its two ends and, for j >= 2, the two tests across its
+    halves (right ends of both halves, left ends of both halves: NutsTree::extend)"""
+    terms = []
+    for j in range(1, depth + 1):
+        size = 2 ** j
+        for a in range(lo, lo + 2 ** depth, size):
+            b = a + size - 1
+            pairs = [(a, b)]
+            if j >= 2:
+                mid = a + size // 2
+                pairs += [(mid - 1, b), (a, mid)]
+            for (x, y) in pairs:
+                for t in turning_terms(S, x, y):
+                    terms.append((j, x, y) + t)
+    return terms
+
+
+def oracle_mirror(c, k, d):
+    """Implementation-side oracle of C01 (mirror rebuild), one draw.
+
+    Which draws are judged, and why.  Let the draw from state 0 end, without divergence, with the
+    accepted tree [lo, hi] of depth d >= 1 (start + the first 2^d - 1 leapfrog ends; whatever was
+    integrated after them is a doubling that was rejected).  Every doubling that was ACCEPTED on the
+    way had (i) no U-turn inside its new half (all aligned sub-blocks of the new half, the new half
+    itself included) and (ii) for all but the last one no U-turn of the merged block; hence no
+    aligned block of [lo, hi] of size 2 .. 2^(d-1) turns, and only the block [lo, hi] itself may.
+    All these tests are functions of the two end states of aligned blocks (is_turning looks at two
+    states only), so the builder started from any state s of [lo, hi] with the mirrored directions
+    meets exactly the same tests: it must accept d doublings, cover [lo - s, hi - s] and nothing
+    else, and - run with maxdepth = d - end with the flag reached_maxdepth iff [lo, hi] itself does
+    not turn.  This holds whatever made the original stop: a U-turn of [lo, hi] (then no flag in
+    the rebuild), a rejected next doubling or the original's own depth limit (then [lo, hi] does not
+    turn and the rebuild stops at its limit d with the flag).  So draws stopped by maxdepth ARE
+    judged.  Not judged: draws with a divergence, an error, depth 0, non-default tree options
+    (mindepth, extra doublings, no U-turn check, target integration time) or scripted faults;
+    draws whose energies tie to rounding (the rule of `ambiguous`).  A single rebuild is not judged
+    when (a) some state of [lo, hi] has an energy above that of s by max_energy_error (seen from s
+    that is a divergence: the energy error is relative to the start), (b) the rebuild does not
+    reproduce the orbit states to 1e-7 (backward integration amplifies rounding on unstable
+    orbits; reversibility of the integrator is C02), or (c) any U-turn scalar product of an
+    aligned block is, relative to its magnitude, within 1e-9 of zero (plus the observed
+    reproduction error): the rebuild integrates the same orbit in another order, its states agree
+    with the original's to rounding only, so the sign of such a product may legitimately differ."""
+    st = {"draws": 0, "rebuilds": 0, "skip_energy_tie": 0, "skip_divergent_from_s": 0, "skip_not_reproduced": 0,
+          "skip_near_uturn": 0, "convention_bad": 0}
+    bad = []
+    r = d.get("result", {})
+    mj = d.get("mirror")
+    if "state" not in r or r["diverging"] or r["depth"] < 1 or not mirror_eligible(c):
+        return bad, st
+    if mj is None or "rebuilds" not in mj:
+        if mj is not None and r["depth"] <= 12:
+            bad.append("draw %d: harness produced no rebuilds: %s" % (k, json.dumps(mj)[:200]))
+        return bad, st
+    if energy_tie(d):
+        st["skip_energy_tie"] += 1
+        return bad, st
+    depth = r["depth"]
+    acc = [d["init"]] + d["leapfrogs"][:2 ** depth - 1]
+    if len(acc) != 2 ** depth or any(lf.get("diverged") for lf in acc[1:]):
+        return ["draw %d: depth %d with only %d leapfrogs" % (k, depth, len(d["leapfrogs"]))], st
+    idxs = [0] + [lf["idx"] for lf in acc[1:]]
+    lo, hi = min(idxs), max(idxs)
+    if sorted(idxs) != list(range(lo, hi + 1)) or (lo, hi) != (mj["lo"], mj["hi"]):
+        return ["draw %d: accepted states %s are not the interval the harness rebuilt [%d, %d]" % (k, sorted(idxs), mj["lo"], mj["hi"])], st
+    S = {i: ([bits2f(b) for b in p["q"]], [bits2f(b) for b in p["v"]]) for i, p in zip(idxs, acc)}
+    E = {i: bits2f(p["energy"]) for i, p in zip(idxs, acc)}
+    terms = mirror_blocks(S, lo, depth)
+    qmax = max(abs(x) for q, _ in S.values() for x in q)
+    vmax = max(abs(x) for _, v in S.values() for x in v)
+    emax = max(E.values())
+    mee = c.get("max_energy_error", 1000.0)
+    # flag the rebuild must end with: [lo, hi] did not turn iff the original went on (a rejected
+    # doubling was integrated) or stopped at its own depth limit
+    want_flag = bool(r["reached_maxdepth"]) or len(d["leapfrogs"]) > 2 ** depth - 1
+    orig_dirs = [int(w) >= 2 ** 63 for kind, w in d["rng_calls"] if kind == "u32"][:depth]
+    st["draws"] += 1
+    for rb in mj["rebuilds"]:
+        s = rb["s"]
+        if s == 0 and rb["dirs"] != orig_dirs:
+            st["convention_bad"] += 1
+        if not (emax - E[s] < mee * (1 - 1e-9) - 1e-9):
+            st["skip_divergent_from_s"] += 1
+            continue
+        dq, dv = rb.get("dq"), rb.get("dv")
+        if dq is None or dv is None or not (dq <= 1e-7 * (1 + qmax) and dv <= 1e-7 * (1 + vmax)):
+            st["skip_not_reproduced"] += 1
+            continue
+        near = None
+        for (j, x, y, t, scale, sv, sdq) in terms:
+            if abs(t) <= 1e-9 * scale + 4 * (2 * dq * sv + dv * sdq) + 1e-300:
+                near = (j, x, y, t)
+                break
+        if near:
+            st["skip_near_uturn"] += 1
+            continue
+        st["rebuilds"] += 1
+        why = []
+        if "panic" in rb or "err" in rb:
+            why.append("it ended with %s" % (rb.get("panic") or rb.get("err"))[:120])
+        else:
+            if rb["diverging"]:
+                why.append("it reports a divergence")
+            if rb["depth"] != depth:
+                why.append("it stops at depth %d instead of %d" % (rb["depth"], depth))
+            if (rb["min"], rb["max"]) != (lo - s, hi - s) or rb["outside"]:
+                why.append("it covers [%d, %d] instead of [%d, %d]" % (rb["min"], rb["max"], lo - s, hi - s))
+            if not why and rb["reached_maxdepth"] != want_flag:
+                why.append("it ends %s the depth-limit flag (maxdepth = %d) although the original %s" % (
+                    "with" if rb["reached_maxdepth"] else "by a U-turn, without", depth,
+                    "did not stop for a U-turn of [lo..hi]" if want_flag else "stopped for a U-turn of [lo..hi]"))
+        if why:
+            bad.append("draw %d: [lo..hi] = [%d..%d] (depth %d), s = %d, mirrored directions %s (true = forward): %s"
+                       % (k, lo, hi, depth, s, rb["dirs"], "; ".join(why)))
+    return bad, st
 
 
 def pool_check(ctx, stats):
@@ -368,8 +562,54 @@ def run(ctx):
     if not ok:
         return
     cases = gen_cases(ctx, n_cases, faults=(prop != "C01"))
+    cases += gen_mirror_cases(ctx, (120 if prop == "C01" else 60) if ctx.tier == "quick" else (1200 if prop == "C01" else 500), len(cases))
     outs, errs = run_harness_parallel("orbit", cases)
     ctx.oblig("harness-run", not errs and len(outs) == len(cases), "\n".join(errs)[:2000])
+    # implementation-side oracle of C01: mirror rebuilds (independent of the model evaluation)
+    mstats, nmb = {}, 0
+    for c in cases:
+        o = outs.get(c["id"])
+        if not c.get("mirror") or not o or o.get("init_state") != "ok":
+            continue
+        for k, d in enumerate(o["draws"]):
+            bad, st = oracle_mirror(c, k, d)
+            for kk, vv in st.items():
+                mstats[kk] = mstats.get(kk, 0) + vv
+            if st["draws"]:
+                dk = "depth_%d" % d["result"]["depth"]
+                mstats[dk] = mstats.get(dk, 0) + 1
+                ctx.evaluations += st["rebuilds"]
+            if bad:
+                nmb += 1
+                if nmb <= 4:
+                    cc = dict(c)
+                    cc["words"] = cc["words"][:40]
+                    violation(ctx, "implementation violates C01: the trajectory [lo..hi] built from state 0 is not rebuilt "
+                              "from its state s with mirrored directions: %s" % bad[0],
+                              {"case": cc, "draw": k, "failures": bad[:20], "original": {kk: d["result"].get(kk) for kk in ("depth", "reached_maxdepth", "diverging")},
+                               "leapfrog_indices": [lf["idx"] for lf in d["leapfrogs"]], "mirror": d.get("mirror")},
+                              found_input=True)
+    ctx.oblig("impl-audit-mirror", nmb == 0, "%d draws are not rebuilt from one of their states" % nmb)
+    # the directions the harness scripted are the model's `mirror_dirs` (the list theorem
+    # C01_mirror_rebuild speaks about), on a seeded sample of rebuilds
+    dsample = []
+    for c in cases:
+        o = outs.get(c["id"]) if c.get("mirror") else None
+        for d in (o or {}).get("draws", []):
+            mj = d.get("mirror") or {}
+            for rb in mj.get("rebuilds", []):
+                dsample.append((mj["lo"], d["result"]["depth"], rb["s"], rb["dirs"]))
+    random.Random("%d-mirror-dirs" % ctx.seed).shuffle(dsample)
+    dsample = dsample[:600 if ctx.tier == "quick" else 6000]
+    dvals, derr = coq_eval_shards(prop + "_mirror_dirs", PRELUDE,
+                                  ["mirror_dirs (%d)%%Z %d (%d)%%Z" % (lo, dep, s_) for lo, dep, s_, _ in dsample],
+                                  shard_size=max(1, len(dsample) // 8 + 1)) if dsample else ([], None)
+    ndd = 0 if derr else sum(1 for (lo, dep, s_, dirs), v in zip(dsample, dvals) if [bool(x) for x in v] != dirs)
+    ctx.oblig("mirror-dirs-model", derr is None and ndd == 0 and len(dvals) == len(dsample),
+              derr or "%d of %d scripted direction lists differ from model.Tree.mirror_dirs" % (ndd, len(dsample)))
+    ctx.oblig("mirror-convention", mstats.get("convention_bad", 0) == 0 and mstats.get("rebuilds", 0) > 0,
+              "rebuilds judged: %d; rebuilds from s = 0 whose mirrored directions differ from the original's: %d"
+              % (mstats.get("rebuilds", 0), mstats.get("convention_bad", 0)))
     exprs, meta = [], []
     for c in cases:
         o = outs.get(c["id"])
@@ -377,7 +617,7 @@ def run(ctx):
             continue
         unrec = any(f[1] == "unrec" for f in c.get("faults", []))
         for k, d in enumerate(o["draws"]):
-            if d.get("init") is None:
+            if d.get("init") is None or k >= c.get("tie_draws", 10 ** 9):
                 continue
             exprs.append(build_model_call(c, d, unrec))
             meta.append((c, k, d))
@@ -438,6 +678,7 @@ def run(ctx):
     if prop == "C03":
         pool_check(ctx, stats)
     ctx.notes["input_distribution"] = stats
+    ctx.notes["mirror_rebuilds"] = mstats
 
 
 _TB = [
@@ -446,6 +687,7 @@ _TB = [
     "weights handed to the model are exp(-energy error) of the logged f64 energies (python libm); draws with a coin probability within 1e-9 of 0 or 1 are skipped as ambiguous and counted",
     "harness/src/bin/orbit.rs (scripted RNG as rand 0.10 defines bool / random_bool, delegating Math with scripted momentum), hook nuts_rs::verif::nuts_draw and point accessors",
     "not in the theorem: continuous-state invariance (measure theory); it is the orbit-wise statement over exact arithmetic",
+    "mirror rebuild (implementation-side oracle of C01, obligation impl-audit-mirror): harness mode `mirror` of orbit.rs re-runs nuts::draw from a pool copy of a state s of the accepted tree (same position, gradient, velocity: the velocity is scripted through the Gaussian draw of initialize_trajectory) with maxdepth = depth and the directions model.Tree.mirror_dirs (rngs.rs DirRng: u32 words = directions, u64 words = seeded coins); judged in Python from the logged states: U-turn scalar products of all aligned blocks are recomputed from the logged transformed positions / velocities and a rebuild is skipped when one of them is within 1e-9 (relative) of zero, when the rebuild does not reproduce the orbit to 1e-7, or when a state of the tree lies max_energy_error above the energy of s",
 ]
 TRUSTED = {"C01": _TB, "C03": _TB}
 ASSUMPTIONS = {
@@ -454,6 +696,6 @@ ASSUMPTIONS = {
     "C03": ["statistics of the returned state are compared bitwise with the state logged when the integrator reached that index"],
 }
 RULE = {
-    "C01": "seeded random orbits: dimension 1-6, Gaussian/quartic potentials, diagonal and low-rank transformations, Euclidean and ExactNormal, maxdepth 0-7, mindepth, extra doublings, scripted random words; non-trivial = a draw of depth >= 1; distinct by (case, draw)",
+    "C01": "seeded random orbits: dimension 1-6, Gaussian/quartic potentials, diagonal and low-rank transformations, Euclidean and ExactNormal, maxdepth 0-7, mindepth, extra doublings, scripted random words; non-trivial = a draw of depth >= 1; distinct by (case, draw); plus mirror rebuilds: 80% of the fault-free default-option cases and 120 (thorough 1200) dedicated cases of 10 trajectories each (generic numbers, depth limits 2-8) are rebuilt from every state of the accepted tree (a seeded sample of 10 states incl. both ends when the tree has more than 16) with mirrored directions; each rebuild must give the same interval, depth and stopping reason",
     "C03": "same stream as C01 plus density faults of every kind at a random evaluation; additionally an implementation-side audit of every draw against the statement (depth/steps/index relations, draw equals a reached state bitwise, next trajectory starts from it)",
 }
